@@ -8,6 +8,8 @@ PROPS = ['C%02d' % i for i in range(1, 21)]
 
 def one(d):
     meta = json.load(open(os.path.join(d, 'meta.json')))
+    if meta.get('retired'):
+        return d, meta, 'retired'
     t = tempfile.mkdtemp(prefix='sa-tab-')
     try:
         subprocess.check_call('git -C /repo archive HEAD | tar -x -C %s' % t, shell=True)
@@ -37,6 +39,9 @@ def main():
             if fired is None:
                 rows.append((name, prop, 'patch no longer applies', '', ''))
                 continue
+            if fired == 'retired':
+                rows.append((name, prop, 'retired', '', meta['retired'][:120]))
+                continue
             if fired == 'nobuild':
                 rows.append((name, prop, 'patch applies but no longer builds', '', ''))
                 continue
@@ -53,8 +58,12 @@ def main():
            '| seed | property | verdict | rules of its own check that fire | other checks that fire |', '|---|---|---|---|---|']
     for r in rows:
         out.append('| %s | %s | %s | %s | %s |' % r)
-    n = len(rows); c = sum(r[2] == 'CAUGHT' for r in rows); o = sum(r[2] == 'other property only' for r in rows)
+    retired = sum(r[2] == 'retired' for r in rows)
+    rows_live = [r for r in rows if r[2] != 'retired']
+    n = len(rows_live); c = sum(r[2] == 'CAUGHT' for r in rows); o = sum(r[2] == 'other property only' for r in rows)
     out += ['', '%d changes: %d caught by the check of the property they target, %d only by another property\'s check, %d missed.' % (n, c, o, n - c - o)]
+    if retired:
+        out += ['', '%d stored change(s) retired: a later repair of /repo made the edit harmless, so it is no longer a violation to detect (reason in its meta.json).' % retired]
     open(os.path.join(ROOT, 'seeded', 'RESULTS.md'), 'w').write('\n'.join(out) + '\n')
     print('\n'.join(out[-1:]))
     for r in rows:
